@@ -21,7 +21,7 @@ for b in brk[:2]:
 how = "; ".join(how) or ("PASS: " + re.search(r"^PASS.*$", out, re.M).group(0) if det == "missed" else "")
 if det == "detected": how += "; failing-input"
 os.makedirs(d, exist_ok=True)
-shutil.copy(wt + "/seed_patch.diff", d + "/patch.diff"); shutil.copy(wt + "/seed_demo.py", d + "/demo.py")
+os.path.exists(wt + "/seed_patch.diff") and shutil.copy(wt + "/seed_patch.diff", d + "/patch.diff"); shutil.copy(wt + "/seed_demo.py", d + "/demo.py")
 a = json.load(open(wt + "/seed_meta.json"))
 meta = {"property": a["property"], "id": x, "summary": a["summary"], "needs_to_manifest": a["needs_to_manifest"],
         "files_changed": a.get("files_changed"),
@@ -31,6 +31,13 @@ meta = {"property": a["property"], "id": x, "summary": a["summary"], "needs_to_m
             "check": "harness/confirm_seed6.sh %s (isolated copy of /verif, VERIF_REPO=<worktree>, quick tier, /repo at %s)" % (x, subprocess.run(["git", "-C", "/repo", "rev-parse", "--short", "HEAD"], capture_output=True, text=True).stdout.strip())},
         "detection": det, "detected_by": how}
 if prov: meta["provenance"] = prov
+old = d + "/meta.json"
+if os.path.exists(old):
+    o = json.load(open(old))
+    meta["first_sight"] = o.get("first_sight") or {"detected": "caught", "no-failing-input-found": "nfif"}.get(o["detection"], o["detection"])
+    if o.get("first_sight_detail") or o["detection"] != "detected": meta["first_sight_detail"] = o.get("first_sight_detail") or o.get("detected_by")
+else:
+    meta["first_sight"] = {"detected": "caught", "no-failing-input-found": "nfif"}.get(det, det)
 json.dump(meta, open(d + "/meta.json", "w"), indent=1)
 if os.environ.get("KEEP_WT") != "1": subprocess.run(["git", "-C", "/repo", "worktree", "remove", "--force", wt])
 print("recorded", x, det, "|", how[:160])
